@@ -9,7 +9,7 @@ CONSTANTS
   Compats = {"Standard", "LegacySip"}
   Offerers = {"A", "B"}
   Scheds = {"plain", "slowSetRemote"}
-  Renegs = {"none", "offerer", "answerer"}
+  Renegs = {"none", "offerer", "answerer", "moved"}
   Deviations = {}
 INVARIANTS TypeOK RolesComplementary SameSrtpKeys NeverFailed StaysConnected
 PROPERTIES ConnectsAndDelivers
